@@ -44,6 +44,13 @@ fn main() {
                 writeln!(w, "{}", l).unwrap();
             }
         }
+        Some("facts") => {
+            // observed constants of the cache format: magic bytes and version word of a written file
+            let mut buf = Vec::new();
+            proguard::ProguardCache::write(&proguard::ProguardMapping::new(b""), &mut buf).expect("write");
+            println!("magic_bytes={},{},{},{}", buf[0], buf[1], buf[2], buf[3]);
+            println!("version={}", u32::from_le_bytes([buf[4], buf[5], buf[6], buf[7]]));
+        }
         Some("deep") => {
             // C13 / finding F8: the typed API recurses on the cause chain (remap, Display, Drop).
             // Runs on a thread with an 8 MiB stack (the default main-thread stack); a stack
